@@ -137,7 +137,7 @@ def gen_manager(rng, tier):
                "retry": rng.random() < 0.6, "late_species": rng.random() < 0.6}
     return {"mode": "manager", "species": species, "text": text, "present": present, "with_end": with_end, "ends": ends,
             "restr": restr, "deform": deform, "ignore": ignore, "use": use, "bad": bad,
-            "parse_restrictions": rng.random() < 0.7,
+            "parse_restrictions": rng.random() < 0.7, "rename_end": rng.random() < 0.2,
             # restrictions handed over as "already parsed" may come in any key order and may name only some species
             "preparsed": rng.choice([None, "shuffled", "shuffled", "subset"]), "preparsed_seed": rng.randrange(2 ** 31)}
 
@@ -493,8 +493,14 @@ def exec_manager(trace, ctx):
             f.write(gen.itp_text(species[s]))
         itps.append(p)
     manager = Manager.from_files(fgro, *itps)
-    for s in trace["with_end"]:
-        manager.add_end_molecule(gen.make_molecule(trace["ends"][str(s)]))
+    for k_, s in enumerate(trace["with_end"]):
+        if trace.get("rename_end") and k_ == 0:
+            # the documented manual route: the end molecule carries another moleculetype name than the species it maps
+            e_ = dict(trace["ends"][str(s)], name=species[s]["name"] + "X")
+            manager.molecule_correspondence[species[s]["name"]].end = gen.make_molecule(e_)
+            ctx.probe("end_molecule_of_another_name")
+        else:
+            manager.add_end_molecule(gen.make_molecule(trace["ends"][str(s)]))
     names_with_end = [species[s]["name"] for s in trace["with_end"]]
     restr = {k: [tuple(x) for x in v] for k, v in trace["restr"].items()} if trace["use"]["restr"] else None
     deform = {k: tuple(v) for k, v in trace["deform"].items()} if trace["use"]["deform"] else None
@@ -623,7 +629,7 @@ def exec_manager(trace, ctx):
         got_names.append(nm)
         # ... and that alignment really holds this species' two molecules
         held = (getattr(self_ali.start, "name", None), getattr(self_ali.end, "name", None))
-        if held != (nm, nm):
+        if held[0] != nm or (held[1] != nm and not trace.get("rename_end")):
             ctx.violate(P, "alignment-holds-other-species", f"the alignment registered for species {nm} holds molecules named {held}")
             return
         want_r = None
